@@ -168,6 +168,45 @@ def remove_in_buffer_check():
     return None
 
 
+def rekey_in_buffer_check():
+    """documents follow their jobs through state point changes inside one buffered block; a job that later lives under the old id
+    (changed back, or newly created) starts from / keeps its own document"""
+    import signac
+    out = []
+    for route in ("back-and-forth", "new-job-at-old-id", "doc-handle-kept"):
+        with project_scratch() as p:
+            try:
+                with signac.buffered():
+                    j = p.open_job({"a": 1}).init()
+                    d = j.doc
+                    d["x"] = 1
+                    j.sp.a = 2
+                    j.doc["y"] = 2
+                    if route == "back-and-forth":
+                        j.sp.a = 1
+                        j.doc["z"] = 3
+                        want = {j.id: {"x": 1, "y": 2, "z": 3}}
+                        inside = {j.id: norm(j.doc())}
+                    elif route == "new-job-at-old-id":
+                        k = p.open_job({"a": 1}).init()
+                        k.doc["k"] = "fresh"
+                        want = {j.id: {"x": 1, "y": 2}, k.id: {"k": "fresh"}}
+                        inside = {j.id: norm(j.doc()), k.id: norm(k.doc())}
+                    else:
+                        want = {j.id: {"x": 1, "y": 2}}
+                        inside = {j.id: norm(j.doc())}
+                after = {i: on_disk(p.open_job(id=i).fn("signac_job_document.json")) for i in want}
+            except Exception as e:
+                out.append((f"{route}:{type(e).__name__}", f"[{route}] state point change after a document access inside signac.buffered() raised {type(e).__name__}: {str(e)[:300]}"))
+                continue
+            if inside != want or after != want:
+                lost = sorted(k for i in want for k in want[i] if k not in after.get(i, {}))
+                moved = sorted(k for i in after for k in after[i] if k not in want.get(i, {}))
+                out.append((f"{route}:lost={','.join(lost)}:misplaced={','.join(moved)}",
+                            f"[{route}] documents after state point changes inside signac.buffered(): read back {inside}, files {after}, plain dicts give {want}"))
+    return out
+
+
 def run(tier="quick", seed=0):
     b = Budget(12 if tier == "quick" else 240)
     evals, distinct, failures, samples = 0, set(), [], []
@@ -192,6 +231,10 @@ def run(tier="quick", seed=0):
     evals += 1
     if rb:
         failures.append({"key": "doc:remove-inside-buffer", "description": rb, "script": script_header() + "sys.path.insert(0, '/verif')\nfrom pybound.c05 import remove_in_buffer_check\nr = remove_in_buffer_check()\nassert not r, r\n"})
+    for sig, msg in rekey_in_buffer_check():
+        failures.append({"key": "doc:rekey-inside-buffer:" + sig, "description": msg,
+                         "script": script_header() + "sys.path.insert(0, '/verif')\nfrom pybound.c05 import rekey_in_buffer_check\nr = rekey_in_buffer_check()\nassert not r, r\n"})
+    evals += 3
     from .fsharness import KNOWN_SEEN, probe_known
     probe_known()
     for k in sorted(KNOWN_SEEN):
@@ -199,5 +242,6 @@ def run(tier="quick", seed=0):
             failures.append({"key": k, "description": "known finding re-observed", "script": ""})
     return {"scope": "1-3 jobs + the project document, 1-3 handles each (same / freshly opened), 4-12 random mapping operations (item/attribute set, del, update, setdefault, pop, clear, reset, "
                      "nested dict and list mutation) over 10 JSON values; run unbuffered, fully inside signac.buffered() (capacities 0, 1, 64, default) and with nested buffered sub-blocks; "
+                     "remove / state point change after a document access inside one buffered block (3 routes); "
                      "resets that trigger dependency findings F23/F24 are excluded",
             "evaluations": evals, "distinct_nontrivial": len(distinct), "rule": "a case is one executed mapping operation; distinct by (operation, key)", "samples": samples, "failures": failures}
